@@ -1,4 +1,4 @@
-import SgVerif.TimeCore.Waits
+import SgVerif.TimeCore.Exact
 /-
 C03 — Simulated time is monotone and events happen exactly at their date.  Property theorems (nothing else here).
 Model: SgVerif/TimeCore/Model.lean (EngineImpl::run/solve, Timer, ActionHeap, CpuCas01::sleep, ActivityImpl, ActorImpl).
@@ -65,8 +65,9 @@ executed at clock exactly t.*  Proved here as its three components, each unbound
 `timer_never_early` (global, above: executed only when `date ≤ clock`), `clock_never_skips_timer` (one maestro
 iteration from ANY state: the clock stops at the earliest pending timer, so `clock ≤ date` still holds when
 `Timer::execute_all` runs) and `kill_time_set_exactly` / C12 `wait_for_sets_deadline` (the only places where timers
-are created: at `now + tau`, `tau ≥ 0`, or at a kill time `> now`, never in the past).  What is NOT proved is the
-gluing frame invariant "no other kernel function adds a timer", so the composition is named `_partial`. -/
+are created: at `now + tau`, `tau ≥ 0`, or at a kill time `> now`, never in the past).  The gluing frame invariant
+("no other kernel function adds a timer", "no pending timer is ever in the past") is proved in the second pass:
+`timer_exact`, `timers_never_past`, `kill_time_exact` below are the full run-level statements. -/
 
 /-- one iteration of the maestro loop never moves the clock beyond a pending timer -/
 theorem clock_never_skips_timer (s : St) (t : Timer) (ht : t ∈ s.k.timers) (hf : s.now ≤ t.date) :
@@ -124,7 +125,172 @@ theorem activity_start_partial (now : Rat) (k : K) (a slot : Nat) (kind : Kind) 
     k'.heap = k.heap ++ [{ impl := k.impls.length, date := now + d, full := kind == .io }] ∧
     (k'.impl k.impls.length).start = now ∧ k'.timers = k.timers := handle_start_date now k a slot kind d hk
 
+/-! ## Run-level theorems (second pass): invariants of EVERY reachable state
+
+`run fuel (initSt progs ties)` ranges over all programs, all resolutions of the equal-date ties and all fuels.
+The proofs are invariants pushed through every function of the model (`TimeCore/Frame.lean`, `Dates.lean`, `Reg.lean`). -/
+
+/-- **timer_exact** (full, run level): every timer callback ever executed — timeout of a `wait_for` / `wait_any_for`,
+kill time — was executed at a clock EXACTLY equal to the timer's date. -/
+theorem timer_exact (progs : List (List Op)) (ties : List Nat) (fuel : Nat) :
+    ∀ x ∈ (run fuel (initSt progs ties)).fired, x.1 = x.2.date :=
+  (run_sinv fuel _ (initSt_sinv progs ties)).fired
+
+/-- … and no pending timer is ever in the past (`clock_never_skips_timer` at run level): with `timer_exact` and
+`timer_never_early`, a timer set for date t either fires at exactly t or is removed before (completion, death). -/
+theorem timers_never_past (progs : List (List Op)) (ties : List Nat) (fuel : Nat) :
+    ∀ t ∈ (run fuel (initSt progs ties)).k.timers, (run fuel (initSt progs ties)).now ≤ t.date :=
+  (run_sinv fuel _ (initSt_sinv progs ties)).d.tim
+
+/-- **progress**: when the run stops (`done`: nothing to run, no next event) no timer and no action is left pending —
+so every timer set during the run was executed (at exactly its date, `timer_exact`) or removed (completion of the
+wait, death of the actor), and every action was completed or canceled. -/
+theorem no_pending_at_end (progs : List (List Op)) (ties : List Nat) (fuel : Nat)
+    (hd : (run fuel (initSt progs ties)).done = true) :
+    (run fuel (initSt progs ties)).k.timers = [] ∧ (run fuel (initSt progs ties)).k.heap = [] :=
+  run_noPend fuel _ (initSt_sinv progs ties) (by intro h; simp [initSt] at h) hd
+
+/-- **kill_time_exact** (full, run level): a kill timer fires at exactly the kill time … -/
+theorem kill_time_exact (progs : List (List Op)) (ties : List Nat) (fuel : Nat) (a : Nat) :
+    ∀ x ∈ (run fuel (initSt progs ties)).fired, x.2.cb = .kill a → x.1 = x.2.date :=
+  fun x hx _ => timer_exact progs ties fuel x hx
+-- … it was created with that date (`kill_time_set_exactly`) and its firing schedules the actor at that very clock
+-- (`kill_timer_schedules_actor`): the actor runs its on_exit functions in the next sub-round, the clock unchanged.
+
+/-- the clock never skips a pending action either: no heap entry is ever in the past -/
+theorem heap_never_past (progs : List (List Op)) (ties : List Nat) (fuel : Nat) :
+    ∀ e ∈ (run fuel (initSt progs ties)).k.heap, (run fuel (initSt progs ties)).now ≤ e.date :=
+  fun e he => ((run_sinv fuel _ (initSt_sinv progs ties)).d.heap e he).1
+
+/-- **no late event** (run level): an action (sleep, exec, comm phase, I/O) is never completed after its date;
+with `no_early_event_bound`: it completes at a clock r with `date - prec < r ≤ date`. -/
+theorem no_late_event (progs : List (List Op)) (ties : List Nat) (fuel : Nat) :
+    ∀ x ∈ (run fuel (initSt progs ties)).popped, x.1 ≤ x.2.date :=
+  run_poppedLe fuel _ (initSt_sinv progs ties) (by simp [PoppedLe, initSt])
+
+/-- **action_exact_window**: every action completes at a clock r with `date - prec < r ≤ date`, and a disk I/O
+(full update, no precision window) at exactly its date. -/
+theorem action_exact_window (progs : List (List Op)) (ties : List Nat) (fuel : Nat) :
+    ∀ x ∈ (run fuel (initSt progs ties)).popped,
+      x.2.date - prec < x.1 ∧ x.1 ≤ x.2.date ∧ (x.2.full = true → x.1 = x.2.date) := by
+  intro x hx
+  have h1 := no_early_event_bound progs ties fuel x hx
+  have h2 := no_late_event progs ties fuel x hx
+  refine ⟨h1, h2, fun hf => ?_⟩
+  have h3 := no_early_event progs ties fuel x hx
+  unfold HeapE.due at h3
+  simp only [hf, if_true, decide_eq_true_eq] at h3
+  exact Rat.le_antisymm h2 h3
+
+/-- the clock only ever stops at the date of a pending timer or action (`solve`): with `action_exact_window`, a sleep
+of date D completes at exactly D unless another event has its date in `(D - prec, D)`. -/
+theorem clock_lands_on_event (s : St) :
+    (solveStep s (outerDelta s)).now = s.now ∨ (∃ t ∈ s.k.timers, t.date = (solveStep s (outerDelta s)).now) ∨
+    (∃ e ∈ s.k.heap, e.date = (solveStep s (outerDelta s)).now) := solveStep_lands s
+
+/-- **activity_order** (full, run level): for every activity of every run, `start ≤ now`, and once the finish time is
+set (≠ -1) `start ≤ finish ≤ now`.  (In the op language an activity is started when it is created: created = start.) -/
+theorem activity_order (progs : List (List Op)) (ties : List Nat) (fuel : Nat) :
+    ∀ im ∈ (run fuel (initSt progs ties)).k.impls,
+      im.start ≤ (run fuel (initSt progs ties)).now ∧
+      (im.finish = -1 ∨ (im.start ≤ im.finish ∧ im.finish ≤ (run fuel (initSt progs ties)).now)) :=
+  (run_sinv fuel _ (initSt_sinv progs ties)).d.ord
+
+/-- **no_stale_registration** (the invariant behind `sleep_exact`, full, run level): in every reachable state, every
+actor that is not dying is registered on activity i exactly as many times as i occurs in its `waiting_synchros_`;
+when it is not in a handled simcall it is registered NOWHERE and no timeout timer of it is pending; in a simcall it is
+registered on at most one activity (sleep, wait, wait_for) or on a sub-multiset of the activities of its wait_any;
+a simcall not yet handled belongs to an actor blocked in it. -/
+theorem no_stale_registration (progs : List (List Op)) (ties : List Nat) (fuel : Nat) (a : Nat)
+    (hwd : ((run fuel (initSt progs ties)).k.actor a).wannadie = false) :
+    let k := (run fuel (initSt progs ties)).k
+    (∀ i, (k.impl i).simcalls.count a = (k.actor a).waiting.count i) ∧
+    ((k.actor a).idle = true → (∀ i, a ∉ (k.impl i).simcalls) ∧ (k.actor a).tcb = none ∧
+        ∀ t ∈ k.timers, cbActor t.cb ≠ some a) ∧
+    ((k.actor a).waiting.length ≤ 1 ∨ ∀ j, (k.actor a).waiting.count j ≤ (k.actor a).anyList.count j) ∧
+    ((k.actor a).pending.isSome = true → (k.actor a).blocked = true) :=
+  reachable_registration progs ties fuel a hwd
+
+/-- **a sleeper is woken by nothing else** (run level, consequence of `no_stale_registration`): in every reachable
+state, `finish()` of an activity `j` leaves untouched every non-dying actor that does not wait for `j` — in
+particular an actor blocked in `sleep_for`, whose `waiting_synchros_` is its sleep activity: no other completion
+answers it; and (`timeout_of_other_actor_is_inert`, any state) neither does the timeout of another actor's wait. -/
+theorem completion_wakes_only_waiters (progs : List (List Op)) (ties : List Nat) (fuel : Nat) (a j : Nat)
+    (hwd : ((run fuel (initSt progs ties)).k.actor a).wannadie = false)
+    (hj : j ∉ ((run fuel (initSt progs ties)).k.actor a).waiting) :
+    ((run fuel (initSt progs ties)).k.finish j).actor a = (run fuel (initSt progs ties)).k.actor a :=
+  finish_other _ j a (run_ri fuel _ (initSt_ri progs ties)).reg hwd hj
+
+/-- **the completion of the awaited activity does wake the waiter** (run level): in every reachable state, when
+`finish()` of activity i reaches the simcall of a blocked, non-dying actor a at the front of `simcalls_`, a is
+answered — scheduled in actors_to_run_ at this very clock, no longer in a simcall — and is then registered nowhere,
+with no timeout timer.  (For a sleep: `handle_ended_actions` calls `finish()` right after `update_actions_state`
+popped the action, at the clock of `action_exact_window`.) -/
+theorem completion_wakes_waiter (progs : List (List Op)) (ties : List Nat) (fuel : Nat) (i a : Nat) (rest : List Nat)
+    (hs : ((run fuel (initSt progs ties)).k.impl i).simcalls = a :: rest)
+    (hb : ((run fuel (initSt progs ties)).k.actor a).blocked = true)
+    (hwd : ((run fuel (initSt progs ties)).k.actor a).wannadie = false) :
+    let k := (run fuel (initSt progs ties)).k
+    a ∈ (k.finishOne i a).toRun ∧ ((k.finishOne i a).actor a).blocked = false ∧
+    ((k.finishOne i a).actor a).waiting = [] ∧ ((k.finishOne i a).actor a).tcb = none :=
+  finishOne_wakes _ i a rest (run_ri fuel _ (initSt_ri progs ties)).reg hs hb hwd
+
+theorem timeout_of_other_actor_is_inert (k : K) (t : Timer) (b a : Nat) (hcb : cbActor t.cb = some b) (h : a ≠ b) :
+    (k.fire t).actor a = k.actor a := fire_timeout_other k t b a hcb h
+
+/-- **regression of 4c67abe5fd**: with the double registration of the old `MessImpl::wait_for`
+(`K.handleWaitForOld`), the state after the timeout has the actor answered but still registered on the message:
+the invariant fails (the fixed code, `kNewFired_clean`, leaves it registered nowhere). -/
+theorem no_stale_registration_regression :
+    ¬ RegInv kOldFired ∧ (kOldFired.actor 0).waiting = [0] ∧ (kNewFired.actor 0).waiting = [] :=
+  ⟨wait_for_double_registration_regression, kOldFired_stale.1, kNewFired_clean.1⟩
+
+/-! `sleep_exact` (full statement above) is now proved up to one gluing step.  Proved for every run:
+the sleep's action is created due at exactly `t + clamp d` with the sleeper alone registered on it (`sleep_date_exact`);
+no registration is ever stale (`no_stale_registration`); hence nothing but the completion of the activities of its
+`waiting_synchros_` wakes a blocked actor (`completion_wakes_only_waiters`, `timeout_of_other_actor_is_inert`, and no
+timer of its own is pending without `timeout_cb_`), and that completion does wake it, at that very clock
+(`completion_wakes_waiter`); an action completes at a clock r with `date - prec < r ≤ date`
+(`action_exact_window`), r being the date of a pending event (`clock_lands_on_event`), hence r = t + clamp d when no
+other event lies in the window; actions and timers are never in the past (`heap_never_past`); when the run stops
+nothing is left pending (`no_pending_at_end`).  NOT proved as one theorem: that the `waiting_synchros_` of an actor
+blocked in `sleep_for` is, in every later state, still exactly its sleep activity with its heap entry unchanged, and
+that nobody else cancels that activity (the per-operation footprint invariant); the monitor (`sleep not exact`) and
+the replay check it on every program. -/
+
 /-! non-vacuity (concrete runs are evaluated by the compiled driver on the corpus: `decide` does not reduce `Rat`) -/
+
+/-- a timer whose date is the clock is executed and recorded: the `fired` trace is not vacuous -/
+example (s : St) (t : Timer) (h : s.k.timers = [t]) (hd : t.date = s.now) :
+    (execAll 1 s false).1.fired = s.fired ++ [(s.now, t)] := by
+  have : ¬ (s.now < s.now) := Rat.lt_irrefl
+  simp [execAll, h, hd, minDate, pick, List.range, List.range.loop, this]
+
+/-- a run that is over (`no_pending_at_end`): the empty simulation stops at once -/
+example : (run 1 (initSt [] [])).done = true := by
+  simp [run, step, initSt, outer_eq, outerPast, outerDelta, minDate, timeDelta, solveStep, outerTail, timersLoop,
+    execAll, K.handleEndedAll, K.handleEnded, K.alive]
+
+/-- hypotheses of `completion_wakes_only_waiters`: an actor that waits for nothing -/
+example : ((run 0 (initSt [[.sleep 1]] [])).k.actor 0).wannadie = false ∧
+    5 ∉ ((run 0 (initSt [[.sleep 1]] [])).k.actor 0).waiting := by
+  simp [run, initSt, K.actor]
+
+example : cbActor (Cb.wto 1 0) = some 1 ∧ (0 : Nat) ≠ 1 := by simp [cbActor]
+
+/-- a state satisfying the invariant with a registered, blocked, non-dying waiter (hypotheses of
+`completion_wakes_waiter` at the kernel level: `finishOne_wakes`) -/
+example : RegInv kNew ∧ (kNew.impl 0).simcalls = [0] ∧ (kNew.actor 0).blocked = true ∧
+    (kNew.actor 0).wannadie = false := ⟨kNew_reg, kNew_shape.1, kNew_shape.2.1, kNew_shape.2.2.1⟩
+
+/-- the hypothesis of `no_stale_registration` holds for the actors of an initial state -/
+example : ((run 0 (initSt [[.sleep 1]] [])).k.actor 0).wannadie = false := by
+  simp [run, initSt, K.actor]
+
+/-- the invariants hold in every reachable state (instances for `activity_order`, `timers_never_past`, …) -/
+example : RI (run 7 (initSt [[.sleep 1, .killAt 2]] [1])) ∧ SInv (run 7 (initSt [[.sleep 1, .killAt 2]] [1])) :=
+  reachable_inv _ _ _
+
 
 example : timeDelta 0 (some 1) (some (1/2)) = some (1/2) ∧ (∀ t, some (1 : Rat) = some t → (0 : Rat) ≤ t) := by
   constructor
